@@ -57,6 +57,10 @@ def run(op, n):
     if op == "parse":
         cmd_parse.main(os.path.join(W, "env.suit"), out + ".json", "json", False)
         return [b64(out + ".json")]
+    if op in ("parsehA", "parsehB"):
+        # hierarchical parse into YAML of two different hierarchies (other dependency names, other depth)
+        cmd_parse.main(os.path.join(W, "multi.suit" if op == "parsehA" else "multi2.suit"), out + ".yaml", "yaml", True)
+        return [b64(out + ".yaml")]
     if op == "boot":
         d = out + "_boot"
         os.makedirs(d, exist_ok=True)
